@@ -43,6 +43,9 @@ Record TInvW (o : Z) (P : Z -> Prop) (off : Z) (ws : list Z) : Prop := mkTInvW {
   tw_end : forall j, P j -> j < tb_end off ws
 }.
 
+(** "the first stored word is not all-ones" *)
+Definition head_okP (ws : list Z) : Prop := forall w t, ws = w :: t -> w <> 2^64 - 1.
+
 (** the bits stored in a literal *)
 Definition lit_set (off : Z) (ws : list Z) (j : Z) : Prop :=
   off <= j < tb_end off ws /\ bitz (flat ws) (j - off) = true.
